@@ -142,4 +142,5 @@ Emit ==
                                probes |-> [p \in 1..Len(cs.probes) |-> [body |-> cs.probes[p], out |-> Outcome(cs.probes[p])]]]) >>)
 Next == (LoadNext /\ UNCHANGED done) \/ Emit
 Spec == Init /\ [][Next]_vars
+FairSpec == Spec /\ WF_vars(LoadNext /\ UNCHANGED done)
 =============================================================================
